@@ -13,12 +13,83 @@ theorem consumeComment_ge (inp : List Nat) (pos : Nat) : pos ≤ consumeComment 
   unfold consumeComment
   split <;> omega
 
-theorem skipBlanks_ge (inp : List Nat) (pos : Nat) : pos ≤ skipBlanks inp pos := by
-  unfold skipBlanks
-  have h1 := consumeWhitespace_ge inp pos
-  have h2 := consumeComment_ge inp (consumeWhitespace inp pos)
-  have h3 := consumeWhitespace_ge inp (consumeComment inp (consumeWhitespace inp pos))
+theorem skipLoop_ge (inp : List Nat) : ∀ (fuel pos : Nat), pos ≤ skipLoop inp fuel pos := by
+  intro fuel
+  induction fuel with
+  | zero => intro pos; exact Nat.le_refl _
+  | succ n ih =>
+    intro pos
+    simp only [skipLoop]
+    split
+    · exact Nat.le_refl _
+    · have h1 := consumeWhitespace_ge inp pos
+      have h2 := consumeComment_ge inp (consumeWhitespace inp pos)
+      have h3 := ih (consumeComment inp (consumeWhitespace inp pos))
+      omega
+
+theorem skipBlanks_ge (inp : List Nat) (pos : Nat) : pos ≤ skipBlanks inp pos :=
+  skipLoop_ge inp _ pos
+
+theorem countWhile_le (p : Nat → Bool) : ∀ (l : List Nat), countWhile p l ≤ l.length := by
+  intro l
+  induction l with
+  | nil => simp [countWhile]
+  | cons c l ih =>
+    simp only [countWhile]
+    split <;> simp <;> omega
+
+theorem blockCommentLen_le (l : List Nat) : blockCommentLen l ≤ l.length := by
+  fun_induction blockCommentLen l
+  · simp
+  · simp
+  · simp only [List.length_cons]; omega
+
+/-- Neither scan moves the cursor beyond the end of the input. -/
+theorem consumeWhitespace_le_len (inp : List Nat) (pos : Nat) (h : pos ≤ inp.length) :
+    consumeWhitespace inp pos ≤ inp.length := by
+  unfold consumeWhitespace
+  have := countWhile_le isWhitespace (inp.drop pos)
+  simp only [List.length_drop] at this
   omega
+
+theorem consumeComment_le_len (inp : List Nat) (pos : Nat) (h : pos ≤ inp.length) :
+    consumeComment inp pos ≤ inp.length := by
+  unfold consumeComment
+  split
+  · rename_i h1 h2
+    have hlt : pos + 1 < inp.length := (List.getElem?_eq_some_iff.mp h2).1
+    have := countWhile_le (fun c => c != 10) (inp.drop (pos + 2))
+    simp only [List.length_drop] at this
+    omega
+  · rename_i h1 h2
+    have hlt : pos + 1 < inp.length := (List.getElem?_eq_some_iff.mp h2).1
+    have := blockCommentLen_le (inp.drop (pos + 2))
+    simp only [List.length_drop] at this
+    omega
+  · exact h
+
+/-- The budget of `skipBlanks` suffices: the loop of `read_input` stops at the returned cursor
+(one more round of `consume_whitespace; consume_comment` does not move it). -/
+theorem skipLoop_settled (inp : List Nat) : ∀ (fuel pos : Nat), pos ≤ inp.length →
+    inp.length - pos < fuel →
+    consumeComment inp (consumeWhitespace inp (skipLoop inp fuel pos)) = skipLoop inp fuel pos := by
+  intro fuel
+  induction fuel with
+  | zero => intro pos _ h; omega
+  | succ n ih =>
+    intro pos hle hf
+    simp only [skipLoop]
+    split
+    · assumption
+    · rename_i hne
+      have h1 := consumeWhitespace_ge inp pos
+      have h2 := consumeComment_ge inp (consumeWhitespace inp pos)
+      have h3 := consumeComment_le_len inp _ (consumeWhitespace_le_len inp pos hle)
+      exact ih _ h3 (by omega)
+
+theorem skipBlanks_settled (inp : List Nat) (pos : Nat) (h : pos ≤ inp.length) :
+    consumeComment inp (consumeWhitespace inp (skipBlanks inp pos)) = skipBlanks inp pos :=
+  skipLoop_settled inp _ pos h (by omega)
 
 /-! ## Names -/
 
